@@ -1,6 +1,7 @@
 #ifndef VERIF_OPS_H
 #define VERIF_OPS_H
 #include "common.h"
+extern int g_env_readers;   /* reading calls run with the legacy-CRC switch set (it must not matter) */
 int  op_enc(cfg_t c, int legacy, const unsigned char *data, size_t len, stripe_t *keep);
 /* returns: 0 decoded == expect, 1 success with different bytes, <0 the error code */
 int  op_dec(cfg_t c, int force, uint64_t flen, int n, char **frags, int misalign,
